@@ -158,56 +158,20 @@ func (s *Set) Has(begin rune) bool {
 	return begin >= beginNode.Forward.Begin
 }
 
-// Complement computes the complement of a set.
+// Complement computes the complement of a set within [0, endSymbol].
 func (s *Set) Complement(endSymbol rune) *Set {
 	set := NewSet()
-	if s.Len() == 0 {
-		node := Node{
-			Forward:  &set.Tail,
-			Backward: &set.Head,
-			Begin:    0,
-			End:      endSymbol,
-		}
-		set.Head.Forward = &node
-		set.Tail.Backward = &node
-		return set
-	}
-	if s.Head.Forward.Begin == 0 && s.Head.Forward.End == endSymbol {
-		return set
-	}
-	a, b := &s.Head, &set.Head
 	pre := rune(0)
-	if pre == a.Forward.Begin {
-		a = a.Forward
+	for a := s.Head.Forward; a != nil && a.Forward != nil && a.Begin <= endSymbol; a = a.Forward {
+		if a.Begin > pre {
+			set.AddRange(pre, a.Begin-1)
+		}
+		if a.End >= endSymbol {
+			return set
+		}
 		pre = a.End + 1
 	}
-	a = a.Forward
-	for a.Forward != nil {
-		node := Node{
-			Backward: b,
-			Begin:    pre,
-			End:      a.Begin - 1,
-		}
-		if a.End == endSymbol {
-			pre = endSymbol
-		} else {
-			pre = a.End + 1
-		}
-		b.Forward = &node
-		a = a.Forward
-		b = b.Forward
-	}
-	if pre < endSymbol {
-		node := Node{
-			Backward: b,
-			Begin:    pre,
-			End:      endSymbol,
-		}
-		b.Forward = &node
-		b = b.Forward
-	}
-	b.Forward = &set.Tail
-	set.Tail.Backward = b
+	set.AddRange(pre, endSymbol)
 	return set
 }
 
